@@ -46,6 +46,8 @@ static mx_cfg_t *C;
 static int my_slot = MX_MAXW;
 static double t_start, t_deadline;
 int mx_case_timeout_s = 20;
+void (*mx_child_init)(void);                                   /* optional: run first in every case child */
+void (*mx_on_abnormal)(const char *desc, int status, mx_result_t *r);   /* optional: refine key/what of a dead child */
 
 static int set_add(uint64_t *tab, volatile long *cnt, uint64_t h)
 {
@@ -225,6 +227,10 @@ void mx_fork_case(const char *desc, mx_case_fn fn, void *ctx)
     if (pid == 0)
     {
         close(pfd[0]);
+        if (mx_child_init)
+        {
+            mx_child_init();
+        }
         alarm((unsigned) mx_case_timeout_s);
         memset(&r, 0, sizeof(r));
         snprintf(r.desc, sizeof(r.desc), "%s", desc);
@@ -293,6 +299,10 @@ void mx_fork_case(const char *desc, mx_case_fn fn, void *ctx)
         snprintf(r.what, sizeof(r.what), "case child ended abnormally (%s) on %s", r.outcome, desc);
         r.violation = C->sanitizer_is_oracle ? 1 : 2;
         r.nontrivial = 1;
+        if (mx_on_abnormal)
+        {
+            mx_on_abnormal(desc, status, &r);
+        }
     }
     mx_record(&r);
 }
